@@ -26,6 +26,21 @@ CLAIMS = {
             'independently written well-formedness specification (theories/WellFormed.v), for every byte string; C06_never_panics: the result '
             'is always Ok or Err. The correspondence run compares the real verifier, the model and the specification on directed and random byte strings.',
             ''),
+    'C07': ('proof', 'Theorems C07_call, C07_call_return, C07_depth_limit on the ISA step, which the regenerated interpreter loop equals on every '
+            'reachable state (C01_step_refines): a local call saves r6-r9 and the return address and lowers r10 by the recorded frame size; after any '
+            'callee execution the matching return resumes after the call with r6-r10 restored and r0-r5 passed through; the 9th nested call is an error. '
+            'Correspondence on call graphs (depth 0..9, forward/backward, recursion, calculators); the JIT is compared with the interpreter.',
+            'JIT part is differential only; its frame-pointer defect is known finding D18. stack.rs is hand-modelled (Stack.v).'),
+    'C08': ('proof', 'Theorems C08_helper_call / C08_other_registers / C08_unknown_helper on the ISA step (= regenerated interpreter step): exactly the '
+            'registered function applied once to (r1..r5), result in r0, other registers, frames and memory unchanged; unknown id = error. '
+            'JIT and Cranelift are compared with the interpreter using instrumented helpers (argument mixer, call counter, caller-saved clobberer, '
+            'stack-alignment probe) at call depth 0..3.',
+            'Compiled engines: differential only; Cranelift\'s machine ABI trusted.'),
+    'C09': ('proof', 'Theorems C09_entry_registers / C09_entry_values: the register initialisation regenerated from interpreter.rs equals the specified '
+            'entry state (r1 = metadata buffer | packet | 0, r10 = stack top, others 0); ld_abs arms address the packet. All 4 VM kinds x 3 engines are '
+            'probed against values derived from the buffer layout, incl. the two words of the fixed metadata buffer for 8 offset pairs, 6 packet lengths '
+            'and successive executions.',
+            'lib.rs wrappers and JIT/Cranelift prologues are exercised differentially, not modelled.'),
     'C17': ('proof', 'Theorems C17_* (props/C17.v) prove, for all field values and all program positions, that the encoders/decoder/builder serializer '
             'regenerated from src/ebpf.rs and src/insn_builder.rs equal the specified slot layout and that the layout is a bijection; the '
             'correspondence run ties model and spec to the real crate.', 'Builder constructors -> opcode byte is tied by exhaustive enumeration of constructors.'),
